@@ -76,6 +76,10 @@ func (withdrawTx) Validate(ctx *action.Context, signedTx action.SignedTx) (bool,
 	if currency.Name != withdraw.WithdrawAmount.Currency {
 		return false, errors.Wrap(action.ErrInvalidAmount, withdraw.WithdrawAmount.String())
 	}
+	// the amount must be a valid, non-negative amount of that currency
+	if !withdraw.WithdrawAmount.IsValid(ctx.Currencies) {
+		return false, errors.Wrap(action.ErrInvalidAmount, withdraw.WithdrawAmount.String())
+	}
 	err = withdraw.ValidatorAddress.Err()
 	if err != nil {
 		return false, errors.Wrap(action.ErrInvalidAddress, err.Error())
